@@ -380,4 +380,83 @@ Proof. rewrite bisync_steps_eq. intros Hi Hj H1 H2.
     rewrite lookup_app_r in Hj by lia. specialize (Ha _ (elem_of_list_lookup_2 _ _ _ Hj)).
     unfold is_arch_step in Ha. rewrite H2 in Ha. discriminate. Qed.
 
+
+(** ** 4. live names hold whole versions that existed before the run *)
+Definition all_in (P : content -> Prop) (m : gmap K content) : Prop := forall q c, m !! q = Some c -> P c.
+Definition trees_in (P : content -> Prop) (t : trees) : Prop := all_in P t.1 /\ all_in P t.2.
+Definition blk_in (P : content -> Prop) (b : blk) : Prop :=
+  match b with BCopy _ _ c => P c | BUnlink _ _ => True end.
+
+Lemma all_in_insert (P : content -> Prop) (m : gmap K content) q c : P c -> all_in P m -> all_in P (<[q := c]> m).
+Proof. intros Hc Hm q' c' Hl. apply lookup_insert_Some in Hl as [[_ <-]|[_ Hl]]; [exact Hc|exact (Hm _ _ Hl)]. Qed.
+Lemma all_in_delete (P : content -> Prop) (m : gmap K content) q : all_in P m -> all_in P (delete q m).
+Proof. intros Hm q' c' Hl. apply lookup_delete_Some in Hl as [_ Hl]. exact (Hm _ _ Hl). Qed.
+
+Lemma blk_apply_in (P : content -> Prop) t b : blk_in P b -> trees_in P t -> trees_in P (blk_apply t b).
+Proof. intros Hb [H1 H2]. destruct b as [[] q c|[] q]; split; cbn;
+  auto using all_in_insert, all_in_delete. Qed.
+Lemma foldl_blk_apply_in (P : content -> Prop) t bl : Forall (blk_in P) bl -> trees_in P t -> trees_in P (foldl blk_apply t bl).
+Proof. intros Hbl; revert t; induction Hbl as [|b bl Hb Hbl IH]; intros t Ht; cbn [foldl]; [exact Ht|].
+  apply IH, blk_apply_in; assumption. Qed.
+
+Lemma copy_in (P : content -> Prop) (from : gmap K content) p (to : gmap K content) q t' :
+  copy from p to q = Some t' -> all_in P from -> all_in P to -> all_in P t'.
+Proof. unfold copy. destruct (from !! p) as [c|] eqn:E; [|discriminate]. intros [= <-] Hf Ht.
+  apply all_in_insert; [exact (Hf _ _ E)|exact Ht]. Qed.
+
+Ltac copy_facts P := repeat match goal with
+  | Hc : copy ?f _ ?t _ = Some ?x |- _ =>
+      let Hn := fresh in assert (Hn : all_in P x) by (eapply copy_in; eassumption); clear Hc end.
+
+Lemma apply_in (P : content -> Prop) a b w pa : trees_in P (wtrees w) -> trees_in P (wtrees (apply a b w pa)).
+Proof. intros [H1 H2]. cbn [wtrees fst snd] in H1, H2. unfold Bisync.apply, wtrees, trees_in.
+  destruct (wErr w); [auto|]. destruct pa as [p act].
+  destruct act; repeat case_match; cbn [wA wB fail fst snd]; copy_facts P; auto using all_in_delete. Qed.
+
+Lemma action_blocks_in (P : content -> Prop) a b w pa : trees_in P (wtrees w) -> Forall (blk_in P) (action_blocks a b w pa).
+Proof. intros [H1 H2]. cbn [wtrees fst snd] in H1, H2. unfold action_blocks.
+  destruct (wErr w); [constructor|]. destruct pa as [p act].
+  destruct act; repeat case_match; repeat constructor; cbn [blk_in]; eauto. Qed.
+
+Lemma plan_blocks_in (P : content -> Prop) a b w pl : trees_in P (wtrees w) -> Forall (blk_in P) (plan_blocks a b w pl).
+Proof. revert w; induction pl as [|pa pl IH]; intros w Hw; cbn [plan_blocks]; [constructor|].
+  apply Forall_app. split; [apply action_blocks_in; exact Hw|]. apply IH, apply_in, Hw. Qed.
+
+Definition pre_existing (s : state) (c : content) : Prop :=
+  exists p, tA s !! p = Some c \/ tB s !! p = Some c.
+
+Lemma crash_paths_whole_lemma s ae k :
+  let f := crash s ae k in
+  all_in (pre_existing s) (fA f) /\ all_in (pre_existing s) (fB f) /\
+  (forall q c, gA f !! q = Some c -> c = [] \/ pre_existing s c) /\
+  (forall q c, gB f !! q = Some c -> c = [] \/ pre_existing s c).
+Proof. cbn zeta.
+  assert (Hw0 : trees_in (pre_existing s) (wtrees (w0_of s))).
+  { split; intros q c Hl; exists q; cbn in Hl; auto. }
+  pose proof (plan_blocks_in _ (scan (tA s)) (scan (tB s)) _ (plan_of s) Hw0) as Hbl. fold (data_blocks s) in Hbl.
+  destruct (crash_shape s ae k) as [(Hk & m & b & j & Hm & Hj & ->)|(Hk & ->)].
+  - destruct (exec_partial_blk (blocks_fs (fs_of s) (take m (data_blocks s))) b j Hj) as (A1 & A2 & _ & _ & _ & A3 & A4).
+    destruct (blocks_fs_proj (fs_of s) (take m (data_blocks s))) as (E & B & C & _).
+    specialize (A3 (B eq_refl)). specialize (A4 (C eq_refl)). rewrite A1, A2.
+    pose proof (foldl_blk_apply_in _ _ _ (Forall_take _ m _ Hbl) Hw0) as Ht.
+    unfold wtrees in Ht. cbn [w0_of wA wB] in Ht. cbn [fs_of fA fB] in E. rewrite <- E in Ht. destruct Ht as [Ht1 Ht2].
+    rewrite Forall_forall in Hbl. specialize (Hbl _ (elem_of_list_lookup_2 _ _ _ Hm)).
+    split; [exact Ht1|]. split; [exact Ht2|].
+    split; intros q c Hl; [destruct (A3 _ _ Hl) as [->| ->]|destruct (A4 _ _ Hl) as [->| ->]]; auto.
+  - destruct (blocks_fs_proj (fs_of s) (data_blocks s)) as (E & B & C & _).
+    specialize (B eq_refl). specialize (C eq_refl).
+    pose proof (foldl_blk_apply_in _ _ _ Hbl Hw0) as Ht.
+    unfold wtrees in Ht. cbn [w0_of wA wB] in Ht. cbn [fs_of fA fB] in E. rewrite <- E in Ht. destruct Ht as [Ht1 Ht2].
+    assert (Hsame : forall g : fs, fA g = fA (blocks_fs (fs_of s) (data_blocks s)) ->
+                     fB g = fB (blocks_fs (fs_of s) (data_blocks s)) -> gA g = ∅ -> gB g = ∅ ->
+      all_in (pre_existing s) (fA g) /\ all_in (pre_existing s) (fB g) /\
+      (forall q c, gA g !! q = Some c -> c = [] \/ pre_existing s c) /\
+      (forall q c, gB g !! q = Some c -> c = [] \/ pre_existing s c)).
+    { intros g -> -> -> ->. split; [exact Ht1|]. split; [exact Ht2|].
+      split; intros q c Hl; rewrite lookup_empty in Hl; discriminate. }
+    unfold arch_part. destruct (wErr (wfin s)).
+    + rewrite take_nil. cbn [exec_all foldl]. apply Hsame; auto.
+    + destruct (exec_arch_prefix (blocks_fs (fs_of s) (data_blocks s)) ae (wC (wfin s)) (k - length (data_steps s)))
+        as (P1 & P2 & P3 & P4 & _). apply Hsame; congruence. Qed.
+
 End P.
